@@ -366,5 +366,8 @@ pub fn catch<T>(f: impl FnOnce() -> T + std::panic::UnwindSafe) -> Result<T, Str
 
 /// Silence the default panic hook (panics are expected and reported as data).
 pub fn quiet_panics() {
+    if std::env::var("HW_LOUD").is_ok() {
+        return;
+    }
     std::panic::set_hook(Box::new(|_| {}));
 }
